@@ -3581,7 +3581,10 @@ void SetFlag(Boolean* Flag, char const* Name, Boolean Wert) {
 
     *Flag = Wert;
     StrCompMkTemp(&TmpComp, (char*)Name, 0);
+    /* predefined symbols are global, also when set from within a macro body */
+    PushLocHandle(-1);
     EnterIntSymbol(&TmpComp, *Flag ? 1 : 0, SegNone, True);
+    PopLocHandle();
 }
 
 void AddDefSymbol(char* Name, TempResult* Value) {
